@@ -194,9 +194,11 @@ def static_cases(prop, rnd, quick):
     for ci, c in enumerate(gcases):
         nodes = [node_to_pv(n) for n in trees[c["tree"]]["nodes"]]
         path = "/".join(c["path"])
-        call = dict(op=want, path=path, mode=0o751) if want == "mkdir_all" else dict(op=want, path=path)
+        # requested modes include ones without owner write/search (every created directory, not only the last, must get it)
+        mode = (0o751, 0o555, 0o500, 0o1777)[ci % 4]
+        call = dict(op=want, path=path, mode=mode) if want == "mkdir_all" else dict(op=want, path=path)
         for bname, feat in rootops_static.FEATS:
-            cases.append(dict(id="static|%d|%s" % (ci, bname), tree=nodes, feat=feat, trace=True, raw=False, calls=[call], post=True, mkmode=0o751,
+            cases.append(dict(id="static|%d|%s" % (ci, bname), tree=nodes, feat=feat, trace=True, raw=False, calls=[call], post=True, mkmode=mode,
                               meta=dict(kind="static", tree=c["tree"], call=call, backend=bname, expect=c["expect"], model_post=c["post"])))
     return cases, gen, design, total
 
